@@ -77,9 +77,12 @@ func genConfig(rng *simcore.RNG, env *simcore.Env) simcore.Op {
 	ids := map[int]bool{}
 	var chs []simcore.Op
 	for len(chs) < nch {
-		id := rng.Intn(256)
-		if rng.Bool(0.1) {
-			id = []int{0, 255, 127, 128}[rng.Intn(4)]
+		id := rng.Intn(128)
+		if rng.Bool(0.05) {
+			id = 128 + rng.Intn(128) // two-byte varint on the wire
+		}
+		if rng.Bool(0.06) {
+			id = []int{0, 255, 127, 128, 0, 127}[rng.Intn(6)]
 		}
 		if ids[id] {
 			continue
@@ -104,9 +107,12 @@ func genConfig(rng *simcore.RNG, env *simcore.Env) simcore.Op {
 	hour := 3600 * 1000
 	if mode == "free" || mode == "hostile" {
 		for side := 0; side < 2; side++ {
-			p := rng.Range(300, 3000)
+			p := rng.Range(3000, 30000)
+			if rng.Bool(0.15) {
+				p = rng.Range(300, 3000) // tight: pong time-outs happen
+			}
 			c[fmt.Sprint("ping_ms", side)] = p
-			c[fmt.Sprint("pong_ms", side)] = p * rng.Range(30, 90) / 100
+			c[fmt.Sprint("pong_ms", side)] = p * rng.Range(50, 90) / 100
 		}
 	} else {
 		for side := 0; side < 2; side++ {
@@ -122,6 +128,8 @@ func genConfig(rng *simcore.RNG, env *simcore.Env) simcore.Op {
 		c["recv_rate"] = []int{0, 2000, 10000, 50000}[rng.Intn(4)]
 	}
 	c["single"] = mode == "stall" || mode == "rl1"
+	c["answer_pings"] = rng.Bool(0.85)
+	c["bad_pm"] = []int{20, 60, 150}[rng.Intn(3)] // hostile: per mille of raw writes that are not well-formed traffic
 	c["nops"] = rng.Range(40, 300)
 	if env.Thorough() {
 		c["nops"] = rng.Range(40, 650)
@@ -390,6 +398,15 @@ type sim struct {
 	hkinds    []string
 	hostileBad bool // a non-benign hostile item was written
 	panics    []string
+	over      [2]*overRec
+	quiet     bool // Finish: no event-log lines (schedule may be racy there by design)
+	wasDown   [2]bool
+}
+
+// overRec: the moment the bytes of one incomplete message delivered to a side exceeded
+// capacity + one packet.
+type overRec struct {
+	ch, n int
 }
 
 func (s *sim) newActor() *actor {
@@ -524,23 +541,34 @@ func (s *sim) up(i int) bool {
 
 func (s *sim) sizes(rng *simcore.RNG, rcap int) int {
 	p := s.payload
+	n := 0
 	switch k := rng.Intn(12); {
 	case k < 2:
-		return rng.Range(1, 9)
+		n = rng.Range(1, 9)
 	case k < 4:
-		return p + rng.Range(-1, 1)
+		n = p + rng.Range(-1, 1)
 	case k < 7:
-		return p*rng.Range(2, 5) + rng.Range(-1, 1)
+		n = p*rng.Range(2, 5) + rng.Range(-1, 1)
 	case k < 9:
-		return rcap - rng.Intn(2)
+		n = rcap - rng.Intn(2)
 	case k < 10:
-		if s.cfg.Bool("oversize") {
+		if s.cfg.Bool("oversize") && rng.Bool(0.3) {
 			return rcap + rng.Range(1, p+1)
 		}
-		return rcap
+		n = rcap
 	default:
-		return rng.Range(1, rcap)
+		n = rng.Range(1, rcap)
 	}
+	if n > rcap {
+		n = rcap - rng.Intn(3)
+	}
+	if n < 1 {
+		n = 1
+	}
+	if rng.Bool(0.02) {
+		n = 0 // zero-length message
+	}
+	return n
 }
 
 func (s *sim) genDeliver(rng *simcore.RNG, to int) simcore.Op {
@@ -573,7 +601,14 @@ func (s *sim) Next(rng *simcore.RNG) simcore.Op {
 		}
 	}
 	hostile := s.mode == "hostile"
-	w := []int{35, 0, 14, 0, 0} // send, deliver, tick, stop, raw
+	if !s.up(1) || (!hostile && !s.up(0)) {
+		// a side is down: let what is in flight arrive (FIN included), then the run is over
+		if len(deliv) > 0 {
+			return s.genDeliver(rng, deliv[rng.Intn(len(deliv))])
+		}
+		return nil
+	}
+	w := []int{35, 0, 10, 0, 0} // send, deliver, tick, stop, raw
 	if len(deliv) > 0 {
 		w[1] = 45
 	}
@@ -639,7 +674,10 @@ func (s *sim) Next(rng *simcore.RNG) simcore.Op {
 		if rng.Bool(0.3) {
 			us = rng.Range(100, 300000)
 		}
-		if (s.mode == "stall" || s.mode == "free") && rng.Bool(0.08) {
+		if len(deliv) > 0 && us > 100000 && s.mode != "stall" && rng.Bool(0.9) {
+			us = 100000
+		}
+		if (s.mode == "stall" || s.mode == "free") && rng.Bool(0.06) {
 			us = 11000000
 		}
 		return simcore.Op{"a": "tick", "us": us}
@@ -655,7 +693,7 @@ func (s *sim) genRaw(rng *simcore.RNG) simcore.Op {
 	rcap := s.c[1].chans[ch].rcap
 	op := simcore.Op{"a": "raw", "ch": ch, "seed": rng.Intn(1 << 30)}
 	kind := "msg"
-	if len(s.hkinds) > 0 && rng.Bool(0.35) {
+	if len(s.hkinds) > 0 && rng.Intn(1000) < s.cfg.Int("bad_pm") {
 		kind = s.hkinds[rng.Intn(len(s.hkinds))]
 	}
 	op["k"] = kind
@@ -807,6 +845,16 @@ func (s *sim) opSend(op simcore.Op) bool {
 			m.res = 2
 		}
 		s.mu.Unlock()
+		switch {
+		case ok && try:
+			s.env.Count("probe.trysend_ok")
+		case ok:
+			s.env.Count("probe.send_ok")
+		case try:
+			s.env.Count("probe.trysend_refused")
+		default:
+			s.env.Count("probe.send_refused")
+		}
 	}
 	return true
 }
@@ -969,8 +1017,8 @@ func (s *sim) packetDelivered(to int, raw []byte) {
 		for j, ch := range c.chans {
 			if ch.id == byte(id) {
 				c.acc[j] += len(m.PacketMsg.Data)
-				if c.acc[j] > ch.rcap+s.payload && s.overAt[to] == nil {
-					s.overAt[to] = &overRec{ch: j, n: c.acc[j]}
+				if c.acc[j] > ch.rcap+s.payload && s.over[to] == nil {
+					s.over[to] = &overRec{ch: j, n: c.acc[j]}
 				}
 				if m.PacketMsg.EOF {
 					c.acc[j] = 0
@@ -983,4 +1031,582 @@ func (s *sim) packetDelivered(to int, raw []byte) {
 	case *tmp2p.Packet_PacketPong:
 		s.env.Count("probe.pkt_pong")
 	}
+}
+
+// ---------------------------------------------------------------- hostile writer
+
+func pkt(m proto.Message) []byte {
+	var p tmp2p.Packet
+	switch x := m.(type) {
+	case *tmp2p.PacketMsg:
+		p.Sum = &tmp2p.Packet_PacketMsg{PacketMsg: x}
+	case *tmp2p.PacketPing:
+		p.Sum = &tmp2p.Packet_PacketPing{PacketPing: x}
+	case *tmp2p.PacketPong:
+		p.Sum = &tmp2p.Packet_PacketPong{PacketPong: x}
+	}
+	b, err := protoio.MarshalDelimited(&p)
+	if err != nil {
+		panic(err)
+	}
+	return b
+}
+
+// opRaw: the hostile end writes bytes by hand. Caller holds mu.
+func (s *sim) opRaw(op simcore.Op) bool {
+	e := s.env
+	ch := op.Int("ch")
+	if ch < 0 || ch >= s.nch {
+		return false
+	}
+	hc := s.c[0]
+	id := int32(s.c[1].chans[ch].id)
+	h := s.h[1]
+	if h.finQueued {
+		return false
+	}
+	var out []byte
+	kind := op.Str("k")
+	rng := simcore.NewRNG(uint64(op.Int("seed")) + 17)
+	switch kind {
+	case "msg":
+		n, f := op.Int("n"), op.Int("f")
+		if n < 0 || n > 1<<22 || f < 0 {
+			return false
+		}
+		s.seq++
+		data := msgBytes(0, ch, s.seq, n, op.Int("seed"))
+		full := append(append([]byte{}, hc.partial[ch]...), data...)
+		hc.partial[ch] = nil
+		rest := data
+		if f == 0 {
+			// an empty non-final fragment first, then ordinary ones
+			out = append(out, pkt(&tmp2p.PacketMsg{ChannelID: id})...)
+			f = s.payload
+		}
+		for {
+			k := len(rest)
+			if k > f {
+				k = f
+			}
+			out = append(out, pkt(&tmp2p.PacketMsg{ChannelID: id, EOF: k == len(rest), Data: rest[:k]})...)
+			rest = rest[k:]
+			if len(rest) == 0 {
+				break
+			}
+		}
+		hc.issued[ch] = append(hc.issued[ch], &msgRec{data: full, res: 1})
+		if len(full) > s.c[1].chans[ch].rcap {
+			s.c[1].excuse = "hostile message larger than the channel capacity"
+			e.Count("fault.hostile_oversize_msg")
+		}
+	case "frag":
+		f, cnt := op.Int("f"), op.Int("cnt")
+		if f < 0 || f > 1<<20 || cnt < 1 || cnt > 1<<16 {
+			return false
+		}
+		for i := 0; i < cnt; i++ {
+			d := rng.Bytes(f)
+			out = append(out, pkt(&tmp2p.PacketMsg{ChannelID: id, Data: d})...)
+			hc.partial[ch] = append(hc.partial[ch], d...)
+		}
+		if len(hc.partial[ch]) > s.c[1].chans[ch].rcap {
+			s.c[1].excuse = "hostile never-ending message larger than the channel capacity"
+		}
+		e.Count("fault.hostile_frag")
+	case "unk":
+		uid := int32(op.Int("id"))
+		if uid >= 0 && uid <= 255 && s.chanIdx(byte(uid)) >= 0 {
+			return false
+		}
+		out = pkt(&tmp2p.PacketMsg{ChannelID: uid, EOF: op.Int("n")%2 == 0, Data: rng.Bytes(op.Int("n"))})
+		s.hostileBad = true
+		e.Count("fault.hostile_unknown_channel")
+	case "big":
+		n := op.Int("n")
+		if n <= s.payload || n > 1<<22 {
+			return false
+		}
+		out = pkt(&tmp2p.PacketMsg{ChannelID: id, EOF: true, Data: rng.Bytes(n)})
+		s.hostileBad = true
+		e.Count("fault.hostile_big_packet")
+	case "ping":
+		for i := 0; i < op.Int("cnt") && i < 1000; i++ {
+			out = append(out, pkt(&tmp2p.PacketPing{})...)
+		}
+		e.Count("fault.hostile_ping_flood")
+	case "pong":
+		for i := 0; i < op.Int("cnt") && i < 1000; i++ {
+			out = append(out, pkt(&tmp2p.PacketPong{})...)
+		}
+		e.Count("fault.hostile_pong")
+	case "rand":
+		out = rng.Bytes(op.Int("n"))
+		s.hostileBad = true
+		e.Count("fault.hostile_random_bytes")
+	case "hugelen":
+		switch op.Int("v") {
+		case 0:
+			out = binary.AppendUvarint(nil, 1<<40)
+		case 1:
+			out = binary.AppendUvarint(nil, 1<<62)
+		case 2:
+			out = append(bytes.Repeat([]byte{0xff}, 10), 1)
+		case 3:
+			out = binary.AppendUvarint(nil, uint64(s.payload+100000))
+		default:
+			out = binary.AppendUvarint(nil, 1<<63)
+		}
+		s.hostileBad = true
+		e.Count("fault.hostile_huge_length")
+	case "empty":
+		out = []byte{0}
+		s.hostileBad = true
+		e.Count("fault.hostile_empty_packet")
+	case "badproto":
+		n := op.Int("n")
+		if n < 1 || n > 1<<20 {
+			return false
+		}
+		out = append(binary.AppendUvarint(nil, uint64(n)), rng.Bytes(n)...)
+		s.hostileBad = true
+		e.Count("fault.hostile_bad_proto")
+	default:
+		return false
+	}
+	s.accept(h, out)
+	return true
+}
+
+// ---------------------------------------------------------------- after each stimulus
+
+func (s *sim) after() {
+	e := s.env
+	for round := 0; round < 6; round++ {
+		s.mu.Lock()
+		did := false
+		for _, id := range s.closedNow {
+			did = true
+			h := s.h[id]
+			h.dead = true
+			h.wire = nil
+			h.ends = nil
+			s.refill(id) // a writer parked towards the closed end is released (bytes vanish)
+			o := s.h[1-id]
+			o.finQueued = true
+		}
+		s.closedNow = nil
+		if s.mode == "hostile" {
+			// the hostile end swallows whatever the real side sends; it answers pings if configured
+			h := s.h[0]
+			pos := h.dTotal
+			for _, en := range h.ends {
+				raw := h.wire[pos-h.dTotal : en-h.dTotal]
+				pos = en
+				if l, k := binary.Uvarint(raw); k > 0 && int(l) == len(raw)-k {
+					var p tmp2p.Packet
+					if proto.Unmarshal(raw[k:], &p) == nil {
+						if _, ok := p.Sum.(*tmp2p.Packet_PacketPing); ok && s.cfg.Bool("answer_pings") && !s.h[1].finQueued {
+							s.accept(s.h[1], pkt(&tmp2p.PacketPong{}))
+							e.Count("probe.hostile_answered_ping")
+						}
+					}
+				}
+			}
+			if pos > h.dTotal {
+				h.wire = h.wire[pos-h.dTotal:]
+				h.dTotal = pos
+				h.ends = h.ends[:0]
+			}
+		}
+		s.mu.Unlock()
+		if !did {
+			break
+		}
+		e.Settle()
+	}
+	s.mu.Lock()
+	defer s.mu.Unlock()
+	if len(s.panics) > 0 {
+		e.Fail("C17", "panic-escaped", "panic on a caller's goroutine: %s", s.panics[0])
+	}
+	for i := 0; i < 2; i++ {
+		c := s.c[i]
+		if c.mc == nil {
+			continue
+		}
+		s.checkRecv(i)
+		if c.errored && !s.wasDown[i] {
+			s.wasDown[i] = true
+			e.Count("probe.on_error")
+			e.Note("onError conn=%d: %s", i, c.errStr)
+			if s.firstDown < 0 {
+				s.firstDown, s.downWhy = i, c.errStr
+				s.judgeFirstDown(i)
+			}
+		}
+		// capacity clause: the receiver has processed everything delivered, is still up, and
+		// the bytes of one incomplete message exceed capacity + one packet
+		if o := s.over[i]; o != nil {
+			if c.errored || c.stopped || c.end.closed {
+				s.over[i] = nil
+			} else if len(s.h[i].avail) == 0 && c.end.rreq != nil {
+				e.Fail("C17", "over-buffer", "conn %d accepted %d bytes of one message on channel index %d (capacity %d, packet payload %d) without dropping the peer", i, o.n, o.ch, c.chans[o.ch].rcap, s.payload)
+			}
+		}
+	}
+	if !s.quiet {
+		if s.parked() {
+			e.Count("probe.writer_parked")
+		}
+		if s.busyActors(0)+s.busyActors(1) > 0 {
+			e.Count("probe.send_blocked")
+		}
+		var sb strings.Builder
+		for i := 0; i < 2; i++ {
+			c := s.c[i]
+			fmt.Fprintf(&sb, " c%d[", i)
+			for j := 0; j < s.nch; j++ {
+				fmt.Fprintf(&sb, "%d/%d ", len(c.recv[j]), len(c.issued[j]))
+			}
+			acc, ref, pend := 0, 0, 0
+			for j := 0; j < s.nch; j++ {
+				for _, m := range c.issued[j] {
+					switch m.res {
+					case 0:
+						pend++
+					case 1:
+						acc++
+					default:
+						ref++
+					}
+				}
+			}
+			fmt.Fprintf(&sb, "acc=%d ref=%d pend=%d err=%v stop=%v w=%d av=%d park=%v]", acc, ref, pend, c.errored, c.stopped, len(s.h[i].wire), len(s.h[i].avail), c.end.wreq != nil)
+		}
+		e.Logf("st%s", sb.String())
+		e.State(s.mode, s.c[0].errored, s.c[1].errored, len(s.h[0].wire) > 0, len(s.h[1].wire) > 0, s.parked(), s.busyActors(0), s.busyActors(1), s.hostileBad)
+	}
+}
+
+func (s *sim) busyActors(i int) int {
+	n := 0
+	for _, a := range s.c[i].actors {
+		if a.busy {
+			n++
+		}
+	}
+	return n
+}
+
+// judgeFirstDown: the first connection error of a run must have a cause the simulator
+// provided; otherwise accepted messages are lost without any fault.
+func (s *sim) judgeFirstDown(i int) {
+	c := s.c[i]
+	switch {
+	case strings.Contains(c.errStr, "pong timeout"):
+		s.env.Count("probe.pong_timeout")
+	case c.excuse != "":
+		s.env.Count("probe.down_oversize")
+	case s.mode == "hostile" && s.hostileBad:
+		s.env.Count("probe.down_hostile_input")
+	case s.c[1-i].stopped:
+	default:
+		sig := "unexpected-disconnect"
+		if strings.Contains(c.errStr, "exceeds max size") {
+			sig = "full-packet-rejected"
+		}
+		s.env.Fail("C17", sig, "conn %d dropped its peer although nothing was wrong with the input: %s", i, c.errStr)
+	}
+}
+
+// checkRecv: what side r received so far must be, per channel, a prefix of what the peer's
+// Send/TrySend calls accepted, in issue order, byte for byte. Caller holds mu.
+func (s *sim) checkRecv(r int) {
+	e := s.env
+	c, peer := s.c[r], s.c[1-r]
+	if c.unknown > 0 {
+		e.Fail("C17", "phantom-channel", "conn %d received a message on a channel it does not have", r)
+	}
+	for j := 0; j < s.nch; j++ {
+		lst := peer.issued[j]
+		for c.checked[j] < len(c.recv[j]) {
+			got := c.recv[j][c.checked[j]]
+			cur := c.cursor[j]
+			for cur < len(lst) && lst[cur].res == 2 {
+				cur++
+			}
+			where := fmt.Sprintf("conn %d channel index %d (id %#x), message #%d received", r, j, c.chans[j].id, c.checked[j])
+			if cur >= len(lst) || lst[cur].res != 1 || !bytes.Equal(got, lst[cur].data) {
+				fwd, back := -1, -1
+				for k := range lst {
+					if bytes.Equal(lst[k].data, got) {
+						if k < cur && back < 0 {
+							back = k
+						}
+						if k >= cur && fwd < 0 && lst[k].res == 1 {
+							fwd = k
+						}
+					}
+				}
+				switch {
+				case fwd >= 0:
+					// accepted messages were skipped
+					onlyEmpty, skipped := true, 0
+					for k := cur; k < fwd; k++ {
+						if lst[k].res == 1 {
+							skipped++
+							if len(lst[k].data) > 0 {
+								onlyEmpty = false
+							}
+						}
+						if lst[k].res == 0 {
+							onlyEmpty = false
+						}
+					}
+					if onlyEmpty && skipped > 0 {
+						e.Fail("C17", "empty-msg-lost", "%s: it is accepted message #%d of that channel; the %d zero-length message(s) accepted before it were never delivered", where, fwd, skipped)
+					} else {
+						e.Fail("C17", "lost-or-reordered-msg", "%s: it is accepted message #%d of that channel, expected #%d first", where, fwd, cur)
+					}
+					// listed known finding: resynchronise behind the message that did arrive
+					c.cursor[j] = fwd + 1
+					c.checked[j]++
+					continue
+				case back >= 0 && lst[back].res == 2:
+					e.Fail("C17", "refused-msg-delivered", "%s: %d bytes that a Send/TrySend call reported as NOT accepted", where, len(got))
+				case back >= 0 && lst[back].res == 0:
+					e.Fail("C17", "early-msg", "%s: a message whose Send call has not returned yet", where)
+				case back >= 0:
+					e.Fail("C17", "duplicate-msg", "%s: accepted message #%d of that channel delivered again", where, back)
+				case cur < len(lst) && len(got) < len(lst[cur].data) && bytes.Equal(got, lst[cur].data[:len(got)]):
+					e.Fail("C17", "truncated-msg", "%s: only the first %d of %d bytes", where, len(got), len(lst[cur].data))
+				default:
+					want := -1
+					if cur < len(lst) {
+						want = len(lst[cur].data)
+					}
+					e.Fail("C17", "modified-msg", "%s: %d bytes that no Send call offered (next expected message has %d bytes)", where, len(got), want)
+				}
+				c.checked[j]++
+				continue
+			}
+			if len(got) > c.chans[j].rcap {
+				e.Fail("C17", "oversize-delivered", "%s: %d bytes delivered on a channel whose receive capacity is %d", where, len(got), c.chans[j].rcap)
+			}
+			c.cursor[j] = cur + 1
+			c.checked[j]++
+		}
+	}
+	// a message longer than the receiver's capacity will (rightly) bring the connection down
+	for j := 0; j < s.nch; j++ {
+		for _, m := range peer.issued[j] {
+			if m.res == 1 && len(m.data) > c.chans[j].rcap && c.excuse == "" {
+				c.excuse = "message larger than the channel capacity"
+				peer.excuse = c.excuse
+			}
+		}
+	}
+}
+
+// ---------------------------------------------------------------- end of run
+
+func (s *sim) complete() bool {
+	for r := 0; r < 2; r++ {
+		c, peer := s.c[r], s.c[1-r]
+		if c.mc == nil {
+			continue
+		}
+		for j := 0; j < s.nch; j++ {
+			for k, m := range peer.issued[j] {
+				if m.res == 0 || (m.res == 1 && k >= c.cursor[j]) {
+					return false
+				}
+			}
+		}
+	}
+	return true
+}
+
+func (s *sim) Finish() {
+	e := s.env
+	if s.dead {
+		return
+	}
+	s.quiet = true
+	// drain: deliver, let timers fire, until everything accepted has arrived or 150 s passed.
+	// (The schedule may be racy here - the clock crosses stats ticks with writers parked - so
+	// nothing order-sensitive is logged; the final state of a correct implementation is unique.)
+	limit := time.Now().Add(150 * time.Second)
+	for time.Now().Before(limit) {
+		for i := 0; i < 20000; i++ {
+			s.mu.Lock()
+			ok := s.deliver(0, 1<<20)
+			ok = s.deliver(1, 1<<20) || ok
+			s.mu.Unlock()
+			if !ok {
+				break
+			}
+			e.Settle()
+			s.after()
+		}
+		s.mu.Lock()
+		done := s.complete() || s.c[0].errored || s.c[1].errored || s.c[0].stopped || s.c[1].stopped
+		busy := s.busyActors(0) + s.busyActors(1)
+		s.mu.Unlock()
+		if done && busy == 0 {
+			break
+		}
+		time.Sleep(100*time.Millisecond + 1)
+		e.Settle()
+		s.after()
+	}
+	s.mu.Lock()
+	fault := s.c[0].errored || s.c[1].errored || s.c[0].stopped || s.c[1].stopped
+	var sig, detail string
+	if !fault {
+		for r := 0; r < 2 && sig == ""; r++ {
+			c, peer := s.c[r], s.c[1-r]
+			if c.mc == nil {
+				continue
+			}
+			for j := 0; j < s.nch && sig == ""; j++ {
+				for k, m := range peer.issued[j] {
+					if m.res == 0 && sig == "" {
+						sig, detail = "send-wedged", fmt.Sprintf("Send #%d on channel index %d of conn %d never returned (150 s after the last action)", k, j, 1-r)
+					}
+				}
+				missing, nonEmpty := 0, 0
+				for _, m := range peer.issued[j][c.cursor[j]:] {
+					if m.res == 1 {
+						missing++
+						if len(m.data) > 0 {
+							nonEmpty++
+						}
+					}
+				}
+				if missing > 0 && sig == "" {
+					sig = "lost-msg"
+					if nonEmpty == 0 {
+						sig = "empty-msg-lost"
+					}
+					detail = fmt.Sprintf("conn %d channel index %d (id %#x): %d accepted message(s) (%d of them non-empty) never arrived; both ends are up, everything in flight was delivered and 150 s passed", r, j, c.chans[j].id, missing, nonEmpty)
+				}
+			}
+		}
+	}
+	s.mu.Unlock()
+	if sig != "" {
+		e.Fail("C17", sig, "%s", detail)
+	}
+	// stop both, release blocked senders, and look for wedged goroutines
+	for i := 0; i < 2; i++ {
+		c := s.c[i]
+		if c.mc == nil {
+			continue
+		}
+		s.mu.Lock()
+		busy := c.ctl.busy
+		if !busy {
+			c.ctl.busy = true
+		}
+		s.mu.Unlock()
+		if !busy {
+			mc := c.mc
+			c.ctl.cmd <- func() { mc.Stop() }
+		}
+		e.Settle()
+		s.after()
+	}
+	// whatever is still in flight towards a stopped connection is of no interest
+	for i := 0; i < 40; i++ {
+		s.mu.Lock()
+		ok := s.deliver(0, 1<<20)
+		ok = s.deliver(1, 1<<20) || ok
+		s.mu.Unlock()
+		if !ok {
+			break
+		}
+		e.Settle()
+		s.after()
+	}
+	time.Sleep(11 * time.Second)
+	e.Settle()
+	s.after()
+	s.mu.Lock()
+	sig, detail = "", ""
+	for i := 0; i < 2; i++ {
+		c := s.c[i]
+		if c.mc == nil {
+			continue
+		}
+		if c.ctl.busy && sig == "" {
+			sig, detail = "stop-wedged", fmt.Sprintf("Stop/FlushStop of conn %d did not return", i)
+		}
+		if n := s.busyActors(i); n > 0 && sig == "" {
+			sig, detail = "send-wedged", fmt.Sprintf("%d Send calls of conn %d still blocked 11 s after the connection was stopped", n, i)
+		}
+	}
+	s.mu.Unlock()
+	if sig != "" {
+		e.Fail("C17", sig, "%s", detail)
+	}
+	for i := 0; i < 2; i++ {
+		s.c[i].end.Close()
+	}
+	e.Settle()
+	if n, sample := leaked(); n > 0 {
+		e.Fail("C17", "goroutine-wedged", "%d MConnection goroutine(s) still alive after Stop and connection close:\n%s", n, sample)
+	}
+	e.Logf("finish ok")
+}
+
+// leaked counts goroutines still inside MConnection code.
+func leaked() (int, string) {
+	buf := make([]byte, 1<<20)
+	n := runtime.Stack(buf, true)
+	cnt := 0
+	sample := ""
+	for _, g := range strings.Split(string(buf[:n]), "\n\n") {
+		if strings.Contains(g, "p2p/conn.(*MConnection)") && !strings.Contains(g, "mconnsim.leaked") {
+			cnt++
+			if sample == "" {
+				sample = g
+				if len(sample) > 1500 {
+					sample = sample[:1500]
+				}
+			}
+		}
+	}
+	return cnt, sample
+}
+
+func (s *sim) Close() {
+	for i := 0; i < 2; i++ {
+		c := s.c[i]
+		if c == nil {
+			continue
+		}
+		if c.mc != nil && c.mc.IsRunning() {
+			mc := c.mc
+			go mc.Stop()
+		}
+		c.end.Close()
+	}
+	s.env.Settle()
+	time.Sleep(11 * time.Second) // blocked Send calls time out
+	s.env.Settle()
+	for i := 0; i < 2; i++ {
+		c := s.c[i]
+		if c == nil {
+			continue
+		}
+		for _, a := range c.actors {
+			close(a.cmd)
+		}
+		if c.ctl != nil {
+			close(c.ctl.cmd)
+		}
+	}
+	s.env.Settle()
 }
